@@ -377,6 +377,10 @@ def match_single_shape(ctx, py: PyRepo):
             else:
                 if not any(is_seed(e.value[0]) and e.value[1] == NAME and e.value[2] == I for e in sets):
                     bad_bound.append('an unbound metavariable is reported matched without being bound to the instance')
+                # a new binding respects the metavariable's side conditions: it is made only where <pattern>.can_be_replaced_by(<instance>)
+                if not any(b is True and c[0] == 'call' and c[1] == ('attr', P, 'can_be_replaced_by') and tuple(c[2]) == (I,) for c, b in p.conds):
+                    bad_bound.append('an unbound metavariable is bound to an instance without `can_be_replaced_by(instance)` holding '
+                                     '(freshness / positivity constraints of the metavariable)')
     ctx.require(not unknown_bound, 'match_single: cannot tell whether the metavariable already has a binding on the path where '
                 + (unknown_bound[0] if unknown_bound else ''))
     ctx.ob('match-shape', 'bound-metavariable-compared', not bad_bound,
@@ -387,6 +391,50 @@ def match_single_shape(ctx, py: PyRepo):
     ctx.ob('match-shape', 'substitution-threaded', n_rec > 0 and not bad_thread,
            'recursive calls must thread the substitution built so far: ' + '; '.join(sorted(set(bad_thread))[:3]), where,
            facts={'recursive calls on all paths': n_rec, 'paths': len(paths)})
+
+
+def notation_matches(ctx, py: PyRepo):
+    """Notation.matches(p) asks whether p is an instance of the notation: the DEFINITION is the pattern side of match_single and p
+    the instance side; no match gives None; otherwise argument i is the binding of metavariable i, or the metavariable itself when
+    the definition does not mention it - for every i below the arity."""
+    from ..core.pyeval import PyEval, show as _sh
+    ci = py.find_class('Notation', 'pattern')
+    fn = ci.methods.get('matches') if ci is not None else None
+    ctx.require(fn is not None and len(fn.args.args) == 2, 'anchor vanished: Notation.matches(pattern)')
+    SELF_ = ('param', 'self')
+    Pn = ('param', fn.args.args[1].arg)
+    M = ('call', ('name', 'match_single'), (('attr', SELF_, 'definition'), Pn), ())
+    rng = ('call', ('name', 'range'), (('attr', SELF_, 'arity'),), ())
+    probs = []
+    n = 0
+    from ..core.pyfacts import self_method_resolver
+    for p in PyEval(resolver=self_method_resolver(py, ci, SELF_, only_private=True)).paths(fn):
+        if p.end[0] != 'return':
+            continue
+        n += 1
+        none = next((b for c, b in p.conds if c in (('cmp', 'is', M, ('const', None)), ('cmp', '==', M, ('const', None)))), None)
+        if none is None:
+            nn = next((b for c, b in p.conds if c == ('cmp', 'is not', M, ('const', None))), None)
+            none = None if nn is None else (not nn)
+        v = p.end[1]
+        if none is None:
+            probs.append(f'a result is returned without the test `match_single(self.definition, {Pn[1]}) is None` (conditions: '
+                         + ', '.join(_sh(c)[:50] for c, _b in p.conds) + ')')
+        elif none and v != ('const', None):
+            probs.append('a failed match does not give None')
+        elif not none:
+            inner = v[2][0] if v[0] == 'call' and v[1] in (('name', 'tuple'), ('name', 'list')) and len(v[2]) == 1 else v
+            ok = inner[0] == 'comp' and len(inner[3]) == 1 and inner[3][0][1] == rng and not inner[3][0][2]
+            if ok:
+                i_ = ('bound', inner[3][0][0])
+                want = ('ifexp', ('cmp', 'in', i_, M), ('sub', M, i_), ('call', ('name', 'MetaVar'), (i_,), ()))
+                alt = ('ifexp', ('cmp', 'not in', i_, M), ('call', ('name', 'MetaVar'), (i_,), ()), ('sub', M, i_))
+                alt2 = ('call', ('attr', M, 'get'), (i_, ('call', ('name', 'MetaVar'), (i_,), ())), ())
+                ok = inner[2] in (want, alt, alt2)
+            if not ok:
+                probs.append(f'a successful match gives `{_sh(v)[:90]}`, not (match[i] if i in match else MetaVar(i)) for i in range(arity)')
+    ctx.ob('match-shape', 'notation-matches', n >= 2 and not probs,
+           'Notation.matches: ' + '; '.join(sorted(set(probs))), py.where(ci.module, fn))
 
 
 def match_single_paths(ctx, py: PyRepo):
@@ -546,6 +594,7 @@ def run(ctx):
     lint(ctx, py)
     match_single_shape(ctx, py)
     match_single_paths(ctx, py)
+    notation_matches(ctx, py)
     match_list_shape(ctx, py)
     # C12 T1 for match_single
     from . import c12
